@@ -55,7 +55,8 @@ def make_plan(tape, prop):
     used = sorted(set(assign))
     plan["dirs"] = {str(f): tape.draw(len(DIRS)) for f in used}
     plan["spelling"] = tape.draw(1 << 16)
-    plan["inc_dirs"] = tape.draw(4)            # bit0: -I /w/inc1 ; bit1: -I /w/inc2 ; order by draw below
+    plan["inc_dirs"] = tape.draw(16)           # bit0: -I /w/inc1 ; bit1: -I /w/inc2 ; bit2: -I /w/src ; bit3: -I /w ; order below
+    plan["separate"] = tape.chance(1, 3)       # one prophyc invocation per file (as a build system would) instead of one for all
     plan["inc_order"] = tape.draw(2)
     plan["cwd"] = tape.draw(4)
     plan["abs_inputs"] = tape.draw(2)
@@ -87,6 +88,10 @@ class Arrangement(object):
             inc.append("/w/inc1")
         if plan["inc_dirs"] & 2:
             inc.append("/w/inc2")
+        if plan["inc_dirs"] & 4:
+            inc.append("/w/src")
+        if plan["inc_dirs"] & 8:
+            inc.append("/w")
         if plan["inc_order"]:
             inc.reverse()
         self.inc = inc
@@ -104,11 +109,15 @@ class Arrangement(object):
                 if g is not None and g != f and g not in self.includes[f]:
                     self.includes[f].append(g)
         self.decoys = {}
+        self.via_inc_subdir = 0
         self.spell = {}
         sp = plan["spelling"]
         for f in self.files:
             for k, g in enumerate(self.includes[f]):
                 self.spell[(f, g)] = self._spelling(f, g, (sp >> (2 * ((f * 3 + k) % 8))) & 3)
+
+    def _all_paths(self):
+        return set(self.path_of.values())
 
     def _search_dirs(self, f):
         return [self.dir_of[f]] + self.inc
@@ -127,8 +136,19 @@ class Arrangement(object):
             if d and not d.startswith(".."):
                 return "%s/../%s/%s" % (d, posixpath.basename(d), base)
             return "./" + rel if bare_ok or not rel.startswith("..") else rel
-        if style == 2 and bare_ok:
-            return base
+        if style == 2:
+            # a path with a directory component that only resolves through an -I directory (an ancestor of g's dir)
+            own = self.dir_of[f]
+            for d in self.inc:
+                if self.dir_of[g].startswith(d + "/") and d != own:
+                    sp = _relpath(self.path_of[g], d)
+                    # it must not resolve earlier in the search order (own directory first)
+                    first = next((x for x in dirs if posixpath.normpath(posixpath.join(x, sp)) in self._all_paths()), None)
+                    if first == d and "/" in sp:
+                        self.via_inc_subdir += 1
+                        return sp
+            if bare_ok:
+                return base
         return rel
 
     def populate(self, fs):
@@ -249,6 +269,8 @@ class FsRun(object):
             self.probe("include_through_second_spelling")
         if arr.cwd not in ("/w",):
             self.probe("compiled_from_other_cwd")
+        if arr.via_inc_subdir:
+            self.probe("include_with_subdirectory_found_through_-I")
         indeg = {}
         for f, g in edges:
             indeg[g] = indeg.get(g, 0) + 1
@@ -267,27 +289,46 @@ class FsRun(object):
                 k = cands[plan["fault_at"] % len(cands)]
                 fs.faults[("read", k)] = 5
                 victim = dry.reads[k]
-        clock = StepClock(STEP_A + STEP_B * sum(len(v) for v in fs.files.values()))
+        clock = StepClock((STEP_A + STEP_B * sum(len(v) for v in fs.files.values())) * (len(arr.files) if plan.get("separate") else 1))
+        separate = plan.get("separate") and fault == "none"
+        reads_per_invocation = []
         try:
             with clock:
-                nodes, exc, so, se = simworld.run_prophyc(fs, argv)
+                if separate:
+                    inputs = [a for a in argv if a.endswith(".prophy")]
+                    common = [a for a in argv if not a.endswith(".prophy")]
+                    exc = None
+                    for one in inputs:
+                        before = len(fs.reads)
+                        nodes, exc, so, se = simworld.run_prophyc(fs, common + [one])
+                        reads_per_invocation.append(fs.reads[before:])
+                        self.count("compiles")
+                        if exc is not None:
+                            break
+                    self.probe("one_invocation_per_file")
+                else:
+                    nodes, exc, so, se = simworld.run_prophyc(fs, argv)
+                    reads_per_invocation.append(list(fs.reads))
+                    self.count("compiles")
         except SimTimeout:
             return self.v("C16", "hang", "C16/step-budget/%s" % fault, "multi-file compile exceeded the step budget")
         self.steps += clock.steps
-        self.count("compiles")
         if fault != "none":
             return self.check_fault(fault, victim, exc, se, fs, arr)
         if exc is not None:
-            return self.v("C16", "compile-failed", "C16/compile-failed/%s/%s" % (type(exc).__name__, _msgkey(exc)),
+            return self.v("C16", "compile-failed", "C16/compile-failed/%s/%s" % (type(exc).__name__, _msgkey(str(exc).split("\n")[0].split("error:")[-1])),
                           "multi-file compile failed: %s: %s" % (type(exc).__name__, str(exc)[:400]))
         # each source read at most once
         seen = {}
-        for p in fs.reads:
-            seen[p] = seen.get(p, 0) + 1
-        for p, c in sorted(seen.items()):
-            if c > 1:
-                return self.v("C16", "read-twice", "C16/file-read-more-than-once",
-                              "%s was read %d times in one invocation (reads: %s)" % (p, c, fs.reads))
+        for reads in reads_per_invocation:
+            once = {}
+            for p in reads:
+                once[p] = once.get(p, 0) + 1
+                seen[p] = 1
+            for p, c in sorted(once.items()):
+                if c > 1:
+                    return self.v("C16", "read-twice", "C16/file-read-more-than-once",
+                                  "%s was read %d times in one invocation (reads: %s)" % (p, c, reads))
         for p in arr.decoys:
             if p in seen:
                 return self.v("C16", "decoy", "C16/decoy-read", "decoy %s was read although %s comes first in the "
